@@ -254,13 +254,56 @@ class Tracer(object):
                     out[attrs.index(k)] = dec_val(v)
         return out
 
-    def col_flags(self, obj, cname):
+    def col_flags(self, obj, cname, connection=None, probe=False):
+        """which column attributes changed.  SQLAlchemy's history is taken as it is when it knows the old value.  When an
+        attribute of a PERSISTENT object was assigned without the old value being known (an expired attribute without
+        active_history: history = added only) SQLAlchemy reports a change whatever the value; the recorder then compares
+        with the stored row itself - continuum switches active_history on for every versioned attribute precisely so that
+        such an assignment of the same value is NO change, and the model must not take the library's word for it"""
         st = sa.inspect(obj)
-        return [st.attrs[k].history.has_changes() for k in self.info.attrs[cname]]
+        attrs = self.info.attrs[cname]
+        flags, unknown = [], []
+        for k in attrs:
+            h = st.attrs[k].history
+            ch = h.has_changes()
+            flags.append(ch)
+            if ch and h.added and not h.deleted and st.persistent and id(obj) not in getattr(self, '_tx_inserted', ()):
+                # (an object INSERTed in this very transaction without the attribute has no loader for it: SQLAlchemy
+                # itself reports an assignment of None to it as a change, with or without active_history - left alone)
+                unknown.append(k)
+        if unknown and not probe:
+            # inside the flush (the row may be written already): the verdict of before_flush stands
+            for k in unknown:
+                if (id(obj), k) in getattr(self, '_phantom', {}):
+                    flags[attrs.index(k)] = False
+        elif unknown and connection is not None:
+            m = st.mapper
+            global PROBING
+            PROBING = True
+            try:
+                row = connection.execute(
+                    sa.select(*[m.get_property(k).columns[0] for k in unknown]).select_from(m.selectable).where(
+                        sa.and_(*[c == v for c, v in zip(m.primary_key, st.identity)]))).first()
+            except Exception:
+                row = None
+            finally:
+                PROBING = False
+            if row is not None:
+                for k, v in zip(unknown, row):
+                    if v == st.attrs[k].history.added[0]:
+                        flags[attrs.index(k)] = False
+                        self._phantom[(id(obj), k)] = True
+        return flags
 
     def rel_flags(self, obj, cname):
         st = sa.inspect(obj)
         return [st.attrs[r[0]].history.has_changes() for r in self.info.rels[cname]]
+
+    def _probe_connection(self, session):
+        try:
+            return session.connection() if session.in_transaction() else None
+        except Exception:
+            return None
 
     def emit(self, line):
         self.lines.append(line)
@@ -274,6 +317,7 @@ class Tracer(object):
                 self.pending_assoc, self.last_cur = view
         elif line in ('ev commit', 'ev rollback'):
             self._sp_view = []
+            self._tx_inserted = set()
         elif line.startswith('ev manualtx ') or line.startswith('ev latetx '):
             self.last_cur = int(line.split(' ')[2])
 
@@ -298,6 +342,7 @@ class Tracer(object):
         return u.current_transaction.__dict__.get('id')
 
     def on_before_flush(self, session, ctx, instances):
+        self._phantom = {}
         views = []
         plugin_mod = False
         for o in session:
@@ -308,7 +353,8 @@ class Tracer(object):
                     plugin_mod = True
                 continue
             views.append('%d:%d:%d:%s:%s' % (self.info.cid[cn], o in session.new, o in session.deleted,
-                                             fmt_bools(self.col_flags(o, cn)), fmt_bools(self.rel_flags(o, cn))))
+                                             fmt_bools(self.col_flags(o, cn, self._probe_connection(session), probe=True)),
+                                             fmt_bools(self.rel_flags(o, cn))))
         views.sort()
         new_id = self.cur_tx_id() or 0
         self.emit('ev bf %d %d %s' % (new_id, 1 if plugin_mod else 0, ';'.join(views) or '-'))
@@ -366,8 +412,11 @@ class Tracer(object):
         cn = self.cname(target)
         if cn is None:
             return
+        if not hasattr(self, '_tx_inserted'):
+            self._tx_inserted = set()
+        self._tx_inserted.add(id(target))
         self.emit('ev ins %d %s %s %s' % (self.info.cid[cn], fmt_list(self.pk_of(target, cn)),
-                                          fmt_vals(self.vals_of(target, cn, connection)), fmt_bools(self.col_flags(target, cn))))
+                                          fmt_vals(self.vals_of(target, cn, connection)), fmt_bools(self.col_flags(target, cn, connection))))
 
     def on_update(self, mapper, connection, target):
         cn = self.cname(target)
@@ -379,7 +428,7 @@ class Tracer(object):
         vals = self.vals_of(target, cn, connection)
         self.emit('ev upd %d %s %s %s %s %s %s' % (
             self.info.cid[cn], fmt_list(self.pk_of(target, cn)), fmt_vals(vals),
-            fmt_bools(self.col_flags(target, cn)), fmt_bools(self.rel_flags(target, cn)),
+            fmt_bools(self.col_flags(target, cn, connection)), fmt_bools(self.rel_flags(target, cn)),
             fmt_bools([k in ck for k in self.info.attrs[cn]]),
             fmt_bools([r[0] in ck for r in self.info.rels[cn]])))
 
